@@ -404,6 +404,12 @@ func c09Endurance(c *Ctx) {
 		ec{"limit-fault-handled/call-depth", "如何深？\n\t输入层\n\t输出（深：层 + 1）\n如何试？\n\t输出（深：1）\n\n\t拦截异常：\n\t\t输出 “handled”\n令一 = （试）\n令二 = （试）\n输出【一，二，1 + 1】\n", `list[text("handled"),text("handled"),num(2)]`},
 		ec{"limit-fault-handled/evaluation-depth-in-operands", "如何深？\n\t输入层\n\t输出 " + strings.Repeat("{1 + ", 12) + "（深：层 + 1）" + strings.Repeat("}", 12) + "\n如何试？\n\t输出（深：1）\n\n\t拦截异常：\n\t\t输出 “handled”\n输出【（试），（试）】\n", `list[text("handled"),text("handled")]`},
 	)
+	ctorRec := "定义节点：\n\t其深 = 0\n如何新建节点？\n\t输入层\n\t其深 = 层\n\t令下 = （新建节点：层 + 1）\n"
+	cases = append(cases,
+		ec{"limit-fault-handled/call-depth-through-constructor", ctorRec + "如何试？\n\t令物 = （新建节点：1）\n\t输出 “got”\n\n\t拦截异常：\n\t\t输出 “handled”\n令一 = （试）\n令二 = （试）\n输出【一，二，1 + 1】\n", `list[text("handled"),text("handled"),num(2)]`},
+		ec{"limit-fault-handled/call-depth-through-type-method", "定义链：\n\t其数 = 0\n\t如何下？\n\t\t输入层\n\t\t输出 以此（下：层 + 1）\n如何试？\n\t令物 = （新建链）\n\t输出 以物（下：1）\n\n\t拦截异常：\n\t\t输出 “handled”\n输出【（试），（试）】\n", `list[text("handled"),text("handled")]`},
+		ec{"limit-fault-handled/call-depth-through-thrown-constructor", "定义深异常：\n\t其内容 = “深”\n如何新建深异常？\n\t输入层\n\t抛出深异常：层 + 1！\n如何试？\n\t抛出深异常：1！\n\n\t拦截异常：\n\t\t输出 “handled”\n输出【（试），1 + 1】\n", `list[text("handled"),num(2)]`},
+	)
 	for _, d := range []int{1, 2, 3, 50, 1000, 10000, 19000, 19990, 19995, 19996, 19997, 19998, 19999, 20000, 20001, 20002, 20005, 25000} {
 		want := fmt.Sprintf("list[bool(true),bool(true),num(%d)]", d)
 		if d > 19000 {
